@@ -817,6 +817,7 @@ impl BytecodeInterpreter {
             ("vm.reg.base", reg_base),
             ("vm.reg.derived", reg_derived),
             ("vm.structs", structs),
+            ("vm.unitinfo", self.vm.verif_c06_unit_information()),
         ]
     }
 
